@@ -531,3 +531,24 @@ Proof.
     rewrite E. apply map_res_ok. intros r Hr. apply in_map_iff in Hr as (k & <- & Hk). apply in_zrange in Hk.
     apply (combine_plane_expected c i perm st a); auto. unfold src_index. lia.
 Qed.
+
+(* every way of getting frame k - lazy reader or not, cache warm or cold - agrees
+   with the eager frame-by-frame decoder *)
+Theorem frames_history_independent : forall c i perm st lazy warm k,
+  valid c i = true -> Permutation perm (zrange (nsrc c)) -> construct c i perm = Ok st ->
+  0 <= k < zlen (s_meta st) ->
+  frame_getter lazy warm st k = stored_frame false st k.
+Proof.
+  intros c i perm st lazy warm k Hv Hp Hc Hk.
+  rewrite (getter_history_independent c i perm st lazy warm k Hv Hp Hc Hk).
+  rewrite <- (getter_history_independent c i perm st lazy false k Hv Hp Hc Hk).
+  destruct lazy; [|reflexivity].
+  (* lazy reader, cold cache = eager reader, cold cache *)
+  unfold frame_getter. cbn [andb negb].
+  destruct (constructed_frames c i perm st Hv Hp Hc) as (fs & -> & Hok).
+  destruct (valid_basic c i Hv) as (_ & Hn & _).
+  cbn [s_meta] in Hk. unfold zlen in Hk. rewrite map_length in Hk.
+  destruct (native c) eqn:En.
+  - rewrite !stored_frame_correct; auto.
+  - now rewrite !stored_frame_encaps.
+Qed.
